@@ -222,6 +222,13 @@ def run(ck):
             scripts.append((sid, L.exchange(mode, al, sc, ns, acts, rounds, tick, lose=lose, dup=dup, marks=True, quiet=quiet, extra_cfg=extra)))
             meta[sid] = dict(mode=mode, al=al, ns=ns, kind=kind, lose=sorted(lose), dup=sorted(dup))
         add("base")
+        if mode == "unb" and eager:
+            # the master application polls only every third round: between the polls nothing but its own commands waits, so a hand-over
+            # can fall between a transmission and its confirmation; with every confirmation lost in turn
+            sparse = [r for r in range(rounds) if r % 3]
+            nb = L.frames_in(runner.run_batch(hcs, [("b", L.exchange(mode, al, sc, ns, acts, rounds, tick, marks=True, quiet=sparse))])["b"]["out"])
+            for k in range(1, nb + 1):
+                add("sparse-single%d" % k, [k], quiet=sparse)
         if mode == "unb" and not eager:
             # a silent line for longer than the secondary's idle supervision, after an odd / even number of frames; then traffic again.
             # And an idle supervision shorter than the acknowledgement timeout with every single answer lost in turn.
